@@ -2,8 +2,8 @@
 from engine.driver import Cond, Run, source_fingerprint
 from checks.C07 import FILES, ENCODED
 
-PROGS_Q = [1, 2, 17, 19, 21, 22, 27, 33]
-PROGS_T = list(range(34))
+PROGS_Q = [1, 2, 17, 19, 21, 22, 27, 33, 34]
+PROGS_T = list(range(35))
 
 
 def run(tier):
